@@ -755,8 +755,8 @@ def main(ctx):
     ctx.notes['property_proved_for_this_tree'] = {
         'crash_safe/save_then_read/cache_transparent': bool(cfg_ok) and proof_ok,
         'dict_roundtrip (key scheme)': bool(kcfg_ok) and kproof_ok}
-    ctx.checker_cmd = ('cd /verif/coq && make C05/Props.vo C05/gen/Run.vo C05/gen/RunKeys.vo (coqc '
-                       '8.16.1) + Print Assumptions of every theorem of these three files')
+    ctx.checker_cmd = ('cd /verif/coq && make C05/Props.vo C05/PropsVal.vo C05/gen/Run.vo C05/gen/RunKeys.vo '
+                       '(coqc 8.16.1) + Print Assumptions of every theorem of these four files')
     if not (proof_ok and kproof_ok):
         ctx.notes['build_log_tail'] = (log1 + log2 + log3)[-1500:]
     if ctx.tier == 'thorough' and proof_ok and kproof_ok:
